@@ -206,6 +206,10 @@ func r122(c *Ctx, r *R) {
 			}
 			m, isK := constString(a[off])
 			if !isK {
+				if valueMentionsField(a[off], "Method", 6) {
+					r.Bad("request:"+f.Name(), ci.Pos(), "%s sends the daemon a request of its own with the client's method: a POST or DELETE chosen by the client reaches the IPFS API on a path the proxy built for reading headers", f.Name())
+					continue
+				}
 				r.Und("request:"+f.Name(), ci.Pos(), "request method is not a constant")
 				continue
 			}
